@@ -215,6 +215,11 @@ func rulesFastqLayout(c *Ctx, r *Report) {
 					nAcc++
 				}
 			}
+			// the record filled through an out-parameter: the accepting return is the one with a nil error
+			if len(ops) == 1 && isNilConst(ops[0]) && len(rd.Params) == 2 && isErrorType(rd.Signature.Results().At(0).Type()) {
+				acc = rt
+				nAcc++
+			}
 		}
 	})
 	if nAcc != 1 {
@@ -264,10 +269,10 @@ func rulesFastqLayout(c *Ctx, r *Report) {
 				return
 			}
 			ops := retOperands(rt)
-			if len(ops) != 2 {
+			if len(ops) != 2 && !(len(ops) == 1 && isErrorType(ops[0].Type())) {
 				return
 			}
-			eof := mayBeEOF(c, ops[1], map[ssa.Value]bool{}, 0)
+			eof := mayBeEOF(c, ops[len(ops)-1], map[ssa.Value]bool{}, 0)
 			if eof {
 				nEOF++
 			}
@@ -292,6 +297,29 @@ func rulesFastqLayout(c *Ctx, r *Report) {
 		find = func(v ssa.Value) *ssa.Call {
 			if seen[v] {
 				return nil
+			}
+			// a field of the record read back after it was stored (len(fq.Quals) != len(fq.Sequence)): what was stored
+			if ld, ok := v.(*ssa.UnOp); ok && ld.Op == token.MUL {
+				if fa, ok := ld.X.(*ssa.FieldAddr); ok && len(rd.Params) == 2 && fa.X == ssa.Value(rd.Params[1]) {
+					var stored ssa.Value
+					n := 0
+					for _, ref := range *rd.Params[1].Referrers() {
+						if fa2, ok := ref.(*ssa.FieldAddr); ok && fa2.Field == fa.Field {
+							for _, r2 := range *fa2.Referrers() {
+								if st, ok := r2.(*ssa.Store); ok && st.Addr == ssa.Value(fa2) {
+									n++
+									if instrDominates(st, ld) {
+										stored = st.Val
+									}
+								}
+							}
+						}
+					}
+					if n == 1 && stored != nil {
+						seen[v] = true
+						return find(stored)
+					}
+				}
 			}
 			seen[v] = true
 			switch x := v.(type) {
@@ -359,10 +387,15 @@ func rulesFastqLayout(c *Ctx, r *Report) {
 	}
 	scanOfLine = scanOf
 	// record fields
-	rec, _ := retOperands(acc)[0].(*ssa.Alloc)
+	var rec ssa.Value
+	if al, ok := retOperands(acc)[0].(*ssa.Alloc); ok {
+		rec = al
+	} else if len(retOperands(acc)) == 1 && len(rd.Params) == 2 {
+		rec = rd.Params[1] // the caller's record, filled in place
+	}
 	fieldScan := map[int]int{}
 	fieldVal := map[int]ssa.Value{}
-	if rec != nil {
+	if rec != nil && rec.Referrers() != nil {
 		for _, ref := range *rec.Referrers() {
 			if fa, ok := ref.(*ssa.FieldAddr); ok {
 				for _, r2 := range *fa.Referrers() {
